@@ -798,6 +798,11 @@ pub fn run(args: &Args) -> i32 {
         engine::with_quiet_stdout(|| engine::run_pbt(&mut ev, args, SUB_DECODER, args.cases(200_000, 4_000_000), decoder_strategy, decoder_check));
     }
 
+    if wanted("corpus") {
+        engine::with_quiet_stdout(|| engine::fuzz::corpus_check(&mut ev, args, "corpus", "h2_frames", "C15/corpus", &["rejected"], vp_oracles::h2_frame));
+    }
+    engine::fuzz::campaign(&mut ev, args, "fuzz", "h2_frames", 3_000_000);
+
     super::c15_conn::describe(&mut ev);
     if wanted(SUB_CONN) {
         engine::shard::run_sharded(&mut ev, args, SUB_CONN, 16, Duration::from_secs(args.tier.pick(600, 3600)));
